@@ -29,6 +29,29 @@ pub fn run(case: &Value) -> Vec<Value> {
                 _ => { let a: Interval<String> = iv::mk(&c["a"], n, "String"); rt(&a) }
             }
         }
+        // states whose sample count exceeds 32 bits (counts are usize): reached by doubling a small state with `+`
+        "serde.state" => {
+            use stats_ci::{comparison, mean, proportion, StatisticsOps};
+            let d = c["doublings"].as_u64().unwrap_or(0);
+            macro_rules! doubled { ($s:expr) => {{ let mut s = $s; for _ in 0..d { s = s.clone() + s.clone(); } s }}; }
+            match c["kind"].as_str().unwrap() {
+                "prop" => {
+                    let n = (c["nbig"]["a"].as_u64().unwrap() as usize) << c["nbig"]["p"].as_u64().unwrap();
+                    rt(&proportion::Stats::new(n, c["k"].as_u64().unwrap() as usize))
+                }
+                "arith" => rt(&doubled!(mean::Arithmetic::<f64>::from_iter(&[1.0, 2.0, 4.0]).unwrap())),
+                "arith32" => rt(&doubled!(mean::Arithmetic::<f32>::from_iter(&[1.0f32, 2.0, 4.0]).unwrap())),
+                "geo" => rt(&doubled!(mean::Geometric::<f64>::from_iter(&[1.0, 2.0, 4.0]).unwrap())),
+                "harm" => rt(&doubled!(mean::Harmonic::<f64>::from_iter(&[1.0, 2.0, 4.0]).unwrap())),
+                "paired" => {
+                    let mut p = comparison::Paired::<f64>::default();
+                    p.extend(&[3.0, 5.0, 9.0], &[1.0, 2.0, 4.0]).unwrap();
+                    rt(&doubled!(p))
+                }
+                "unpaired" => rt(&doubled!(comparison::Unpaired::<f64>::from_iter(&[3.0, 5.0, 9.0], &[1.0, 2.0]).unwrap())),
+                k => panic!("kind {}", k),
+            }
+        }
         o => panic!("op {}", o),
     });
     vec![ev]
